@@ -17,5 +17,13 @@ meta = {
  'caught_by': [c for c in caught.split(',') if c and c != 'none'],
  'missed_by_at_first': [c for c in missed.split(',') if c],
 }
+# helper files the demo needs (small sources only)
+import subprocess
+extra = [f for f in os.listdir(src) if not re.fullmatch(r'[A-Z]\.(diff|demo\.sh)', f) and f != 'notes.md' and not f.startswith('.')]
+if extra:
+    os.makedirs(f'{dst}/extras', exist_ok=True)
+    for f in extra:
+        subprocess.run(['rsync', '-a', '--exclude', 'target', f'{src}/{f}', f'{dst}/extras/'], check=False)
+    meta['demo_helper_files'] = 'extras/ (the demo expects them beside it, as in the sub-agent\'s SEEDED directory)'
 json.dump(meta, open(f'{dst}/meta.json', 'w'), indent=1)
 print('kept', dst)
